@@ -331,6 +331,7 @@ def shards(tier, seed):
     for i in range(len(both)):
         specs.append({"part": "multi-dir", "first": i, "maxlines": 3})
     per = 300 if tier == "quick" else 5000
+    specs.append({"part": "long"})
     for i in range(16):
         specs.append({"part": "random", "seed": seed * 1000 + i, "n": per,
                       "directives": i % 2 == 1})
@@ -356,6 +357,15 @@ def run_shard(spec):
         import sys
         from zcv import fuzzrun
         fuzzrun.run(res, sys.modules[__name__], ID, spec["runs"], spec["seed"], max_len=200, timeout=1500)
+        return res
+    if part == "long":
+        # size classes: one physical line far longer than any buffer (it is still one line)
+        for n in (8191, 8192, 8193, 65535, 65536, 65537, 70000, 200000, (1 << 20) - 1, (1 << 20) + 5):
+            for text in ("k " + "v" * n + "\nk2 w\n", "k" * n + " v\nk2 w\n", "# " + "c" * n + "\nk v\n",
+                         "<a " + "n" * n + ">\nk v\n</a>\n", "<a>\n  k " + "v" * n + "\n</a>\n",
+                         "k v" + " " * n + "\n<a/>\n"):
+                _do(res, text, ("schemaless", "recording"))
+        res.exhaustive_parts.append("very long lines (8 Ki, 64 Ki, 1 Mi characters) as value, key, comment, section name, trailing blanks")
         return res
     if part == "single":
         f = spec["first"]
